@@ -94,6 +94,30 @@ def cases(rng, tier):
             h = R.rpoly(rng, rng.randrange(1, 4), 5, sparse=0.3); f = R.pmul(f, h); g = R.pmul(g, h)
         if rng.random() < 0.5: f, g = g, f
         add(f, g, 'degree-gap')
+    # degree gaps >= 2 at the SECOND or a later step of the remainder sequence, with non-unit leading coefficients there:
+    # (a) sparse pairs of comparable degree, (b) (a, a') for products g^e * h * k (the consumer poly_z::factorize calls the
+    # routine on exactly such pairs), (c) quadrinomials and their derivatives, each also multiplied by a common factor
+    for k in range(400 if not th else 4000):
+        df = rng.randrange(4, 10); dg = rng.randrange(3, df + 1)
+        f = R.rpoly(rng, df, rng.choice([2, 3, 8]), lc=rng.choice([None, 2, -3, 6]), sparse=rng.choice([0.5, 0.7]))
+        g = R.rpoly(rng, dg, rng.choice([2, 3, 8]), lc=rng.choice([None, 2, -3, 4]), sparse=rng.choice([0.4, 0.6]))
+        if k % 3 == 0:
+            h = R.rpoly(rng, rng.randrange(1, 3), 3); f = R.pmul(f, h); g = R.pmul(g, h)
+        add(f, g, 'late-degree-gap')
+    for k in range(300 if not th else 3000):
+        gq = R.rpoly(rng, rng.randrange(1, 4), 2, lc=rng.choice([1, 1, 2])); e = rng.choice([2, 2, 3])
+        a = R.pscale(rng.choice([1, -1, -3, 2]), R.rpoly(rng, rng.randrange(1, 4), 2))
+        for _ in range(e): a = R.pmul(a, gq)
+        if k % 2 == 0: a = R.pmul(a, R.rpoly(rng, rng.randrange(1, 5), 2, sparse=0.5))
+        add(a, R.pderiv(a), 'a-and-derivative')
+    for n in range(5, 9 if not th else 12):
+        for kk in range(2, n):
+            for j in range(1, kk):
+                f = [0] * (n + 1)
+                f[n] = rng.choice([1, -1, 2, 3]); f[kk] = rng.choice([1, 2, -2, 3]); f[j] = rng.choice([1, -1, -2, 5]); f[0] = rng.choice([1, -1, 2, 3])
+                add(f, R.pderiv(f), 'quadrinomial-derivative')
+                if (kk + j) % 2 == 0:
+                    h = R.rpoly(rng, 1, 3); add(R.pmul(f, h), R.pmul(R.pderiv(f), h), 'quadrinomial-derivative-planted')
     s = Case('resultant_gcd', line('resultant_gcd', [1], [1]), model=line('resultant_gcd_x', [1], [1]), compare=cmpf, nontrivial=False, tag='flag-count')
     fc.sentinel = s
     out.append(s)
